@@ -54,6 +54,21 @@ def _special(kmax):
         yield _from_arcs(arcs, "two-ladders%d+%d" % (k1, k2))
 
 
+def _many_groups():
+    """Many stems in pseudoknots, spread over small independent groups: k H-type knots side by side (2 stems each, 2^k notations), k kissing-hairpin
+    groups (3 stems each, 3^k... notations) - up to 14 / 12 conflicting stems in total while no group has more than 3 members."""
+    for k in range(2, 8):
+        arcs = []
+        for g in range(k):
+            arcs += [(4 * g, 4 * g + 2), (4 * g + 1, 4 * g + 3)]
+        yield _from_arcs(arcs, "two-by-%d" % k, gap=1)
+    for k in range(2, 5):
+        arcs = []
+        for g in range(k):
+            arcs += [(6 * g, 6 * g + 2), (6 * g + 1, 6 * g + 4), (6 * g + 3, 6 * g + 5)]
+        yield _from_arcs(arcs, "kissing-by-%d" % k, gap=1)
+
+
 def mapping_cases(tier):
     """Knotted structures pushed through the 3D route: a synthetic N-nucleotide structure (one or two chains) + the matching as cWW pairs ->
     Mapping2D3D.all_dot_brackets / adapter.extract_secondary_structure_from_external(all_dot_brackets=True) / adapter.main --all-dot-brackets."""
@@ -93,6 +108,7 @@ def families(tier):
         ("M", lambda: enum2d.M(10 if q else 11), 1),
         ("D", lambda: enum2d.D(4 if q else 5), 1),
         ("special", lambda: _special(8), 1),
+        ("many-groups", _many_groups, 1),
     ]
     if not q:
         fams.append(("D6", lambda: enum2d.D(6, kmin=6, lens=(1,), gapvals=(0,)), 1))
@@ -354,7 +370,7 @@ def run_case(case):
     if al is None:
         return dict(nontrivial=knotted, outcome="exc", violations=out)
     f = call("fcfs", lambda: b.fcfs, out)
-    d = call("dot_bracket", lambda: b.dot_bracket, out) if maxcomp <= 7 or case.get("special", "").startswith(("path", "star", "two")) else None
+    d = call("dot_bracket", lambda: b.dot_bracket, out) if maxcomp <= 7 or case.get("special", "").startswith(("path", "star", "two", "kissing")) else None
     strs = [x.structure for x in al]
     if len(set(strs)) != len(strs):
         out.append(viol("repeated-member", "all_dot_brackets repeats a string", sorted(strs), None))
